@@ -1126,8 +1126,10 @@ class PyCdlib:
                 # other files, as the linkage will be essentially random.
                 # Ignore zero-length files (including symlinks) for linkage.
                 # We don't do the lastbyte calculation on zero-length files for
-                # the same reason.
-                if not is_dir:
+                # the same reason.  The placeholder left behind by a relocated
+                # directory (a non-directory record with a Rock Ridge child
+                # link) stands for that directory, not for file data.
+                if not is_dir and not rr_cl:
                     len_to_use = data_length
                     extent_to_use = new_extent_loc
                     # An important side-effect of this is that zero-length files
